@@ -269,9 +269,27 @@ Proof. exact DynRegSkip.C19_isolation_sk. Qed.
 Theorem C15_dyn_provided_never_skipped : forall c sel, provides c sel = true ->
   forall sk reg, should_skip_dyn sk reg c sel = false.
 Proof. exact DynRegSkip.C15_dyn_provided_never_skipped. Qed.
-Theorem C15_dyn_registered_never_skipped : forall reg sel, reg_matches reg sel = true ->
-  forall sk c, should_skip_dyn sk reg c sel = false.
+(* "known": under dynamic registration, provided by the file's own imports and nothing else (independent of what was
+   parsed before); without it, matched by the registry *)
+Theorem C15_dyn_known_is_provided : forall reg c sel, c_dynamic c = true -> known_dyn reg c sel = provides c sel.
+Proof. exact DynRegSkip.C15_dyn_known_is_provided. Qed.
+Theorem C15_static_known_is_registered : forall reg c sel, c_dynamic c = false -> known_dyn reg c sel = reg_matches reg sel.
+Proof. exact DynRegSkip.C15_static_known_is_registered. Qed.
+Theorem C15_dyn_registered_never_skipped : forall reg sel c, c_dynamic c = false -> reg_matches reg sel = true ->
+  forall sk, should_skip_dyn sk reg c sel = false.
 Proof. exact DynRegSkip.C15_dyn_registered_never_skipped. Qed.
+Theorem C15_dyn_unprovided_skip_decision : forall c sel, c_dynamic c = true -> provides c sel = false ->
+  forall sk reg, should_skip_dyn sk reg c sel = dsk_covers sk sel.
+Proof. exact DynRegSkip.C15_dyn_unprovided_skip_decision. Qed.
+Theorem C15_dyn_registered_unprovided_skipped : forall reg c sel sk, c_dynamic c = true -> reg_matches reg sel = true ->
+  provides c sel = false -> dsk_covers sk sel = true -> should_skip_dyn sk reg c sel = true.
+Proof. exact DynRegSkip.C15_dyn_registered_unprovided_skipped. Qed.
+Theorem C15_dyn_known_independent_of_registry : forall sk reg1 reg2 c sel, c_dynamic c = true ->
+  should_skip_dyn sk reg1 c sel = should_skip_dyn sk reg2 c sel.
+Proof. exact DynRegSkip.C15_dyn_known_independent_of_registry. Qed.
+Theorem C15_dyn_skip_decision_full : forall sk reg c sel,
+  should_skip_dyn sk reg c sel = negb (if c_dynamic c then provides c sel else reg_matches reg sel) && dsk_covers sk sel.
+Proof. exact DynRegSkip.C15_dyn_skip_decision_full. Qed.
 Theorem C15_dyn_skip_decision : forall sk reg c sel, reg_matches reg sel = false -> provides c sel = false ->
   should_skip_dyn sk reg c sel = dsk_covers sk sel.
 Proof. exact DynRegSkip.C15_dyn_skip_decision. Qed.
@@ -328,6 +346,22 @@ Theorem C15_dyn_orig_drops_provided_binding :
     = run_stmts DynSkipExample.univ DynSkipExample.stmts DynSkipExample.s0 [] empty_ctx /\
   all_known_dyn DynSkipExample.univ DSkTrue DynSkipExample.stmts DynSkipExample.s0 [] empty_ctx = true.
 Proof. exact DynSkipExample.C15_dyn_orig_drops_provided_binding. Qed.
+(* the code between the two repairs did not skip a name the file's imports do not provide when something else had
+   registered that spelling: NameError, and an outcome that depended on what was parsed before *)
+Theorem C15_dyn_orig_registered_spelling_not_skipped :
+  c_dynamic DynSkipExample2.ctx2 = true /\ provides DynSkipExample2.ctx2 "other.g" = false /\
+  reg_matches (ds_reg DynSkipExample2.s_reg) "other.g" = true /\ dsk_covers DSkTrue "other.g" = true /\
+  should_skip_dyn_orig2 DSkTrue (ds_reg DynSkipExample2.s_reg) DynSkipExample2.ctx2 "other.g" = false /\
+  DynSkipExample.summary (run_stmts_sk should_skip_dyn_orig2 DynSkipExample2.univ2 DSkTrue DynSkipExample2.stmts2 DynSkipExample2.s_reg [] empty_ctx)
+    = (["other.g"], [], Some "NameError") /\
+  DynSkipExample.summary (run_stmts_sk should_skip_dyn_orig2 DynSkipExample2.univ2 DSkTrue DynSkipExample2.stmts2 DynSkipExample.s0 [] empty_ctx)
+    = (["dmod.fn"], [(("", "dmod.fn"), [("x", 1%Z)])], None) /\
+  should_skip_dyn DSkTrue (ds_reg DynSkipExample2.s_reg) DynSkipExample2.ctx2 "other.g" = true /\
+  DynSkipExample.summary (run_stmts_sk should_skip_dyn DynSkipExample2.univ2 DSkTrue DynSkipExample2.stmts2 DynSkipExample2.s_reg [] empty_ctx)
+    = (["other.g"; "dmod.fn"], [(("", "dmod.fn"), [("x", 1%Z)])], None) /\
+  DynSkipExample.summary (run_stmts_sk should_skip_dyn DynSkipExample2.univ2 DSkTrue DynSkipExample2.stmts2 DynSkipExample.s0 [] empty_ctx)
+    = (["dmod.fn"], [(("", "dmod.fn"), [("x", 1%Z)])], None).
+Proof. exact DynSkipExample2.C15_dyn_orig_registered_spelling_not_skipped. Qed.
 
 (* F37 (repaired code): the header under dynamic registration reads the recorded imports (_IMPORTS, a set in the
    implementation) only through the sorted list of statements and the test for the enabling statement: it depends on
@@ -383,6 +417,13 @@ Print Assumptions C19_isolation_sk.
 Print Assumptions C15_dyn_provided_never_skipped.
 Print Assumptions C15_dyn_registered_never_skipped.
 Print Assumptions C15_dyn_skip_decision.
+Print Assumptions C15_dyn_skip_decision_full.
+Print Assumptions C15_dyn_known_is_provided.
+Print Assumptions C15_static_known_is_registered.
+Print Assumptions C15_dyn_unprovided_skip_decision.
+Print Assumptions C15_dyn_registered_unprovided_skipped.
+Print Assumptions C15_dyn_known_independent_of_registry.
+Print Assumptions C15_dyn_orig_registered_spelling_not_skipped.
 Print Assumptions C15_dyn_skipped_block_dropped.
 Print Assumptions C15_dyn_skipped_binding_dropped.
 Print Assumptions C15_dyn_skipped_ref_binding_dropped.
